@@ -711,6 +711,7 @@ def _(I, ctx, v):
     tgt = I.resolve_static(ctx.cur_crate, key)
     if tgt is not None: return I.call(ctx, ctx.cur_crate, key, [v])
     if src in INT_BITS and dst in INT_BITS: return I.cast_int(v, dst)
+    if re.match(r'^(std::num::|core::num::)?NonZero', src) or re.match(r'^(std::num::|core::num::)?NonZero', dst): return v
     if re.match(r'^(std::sync::atomic::)?Atomic', dst) or re.match(r'^(std::cell::)?(Cell|RefCell)<', dst): return Agg('CellLike', [v])
     if re.match(r'^(Box|Rc|Arc|std::\w+::(Box|Rc|Arc))<', dst): return v
     if dst.startswith(('String', 'std::string::String')) and src in ('&str', 'str'): return StrV(list(str_bytes(v)))
@@ -1126,3 +1127,40 @@ def _(I, ctx, r, f):
     _stable_sort(I, ctx, l, lo, hi, lambda a, b: I.call_value(ctx, ctx.cur_crate, f, [ValRef(a), ValRef(b)]).variant == 'Less'); return UNIT
 @model('re:^(?:core|std|alloc)::slice::<impl \\[.*\\]>::(binary_search_by_key|binary_search_by|binary_search)$')
 def _(I, ctx, r, *a): raise Unsupported('binary search')
+
+
+@model('re:^nonzero_ext::<impl NonZeroLiteral<.*>>::into_nonzero$', 're:^nonzero_ext::.*::into_nonzero$')
+def _(I, ctx, v): return deref(v).fields[0] if isinstance(deref(v), Agg) else v
+@model('re:^(std|core)::num::NonZero::(get|new_unchecked)$', 're:^(std|core)::num::(NonZero\\w*|NonZero)::(get|new_unchecked)$', 're:^NonZero::(get|new_unchecked)$')
+def _(I, ctx, v): return v
+@model('re:^(std|core)::num::(NonZero\\w*|NonZero)::new$', 're:^NonZero::new$')
+def _(I, ctx, v): return NONE() if ctx.branch(bv_is(v, 0)) else SOME(v)
+
+
+@model('re:^<.* as (std::iter::)?Iterator>::scan$')
+def _(I, ctx, it, init, f):
+    st = ValRef(init); out = []
+    it0 = to_iter(I, ctx, it)
+    while True:
+        o = it_next(I, ctx, it0)
+        if o.variant == 'None': break
+        r = I.call_value(ctx, ctx.cur_crate, f, [st, o.fields[0]])
+        if r.variant == 'None': break
+        out.append(r.fields[0])
+    return ListIt(out)
+@model('re:^<.* as (std::iter::)?Iterator>::(map_while)$')
+def _(I, ctx, it, f):
+    out = []; it0 = to_iter(I, ctx, it)
+    while True:
+        o = it_next(I, ctx, it0)
+        if o.variant == 'None': break
+        r = I.call_value(ctx, ctx.cur_crate, f, [o.fields[0]])
+        if r.variant == 'None': break
+        out.append(r.fields[0])
+    return ListIt(out)
+@model('re:^<.* as (std::iter::)?Iterator>::(step_by|fuse|by_ref|inspect)$')
+def _(I, ctx, it, *a):
+    if ctx.cur_key.endswith(('fuse', 'by_ref')): return it if ctx.cur_key.endswith('by_ref') else to_iter(I, ctx, it)
+    raise Unsupported(ctx.cur_key)
+@model('re:^<.* as (std::iter::)?Iterator>::(try_fold|try_for_each|reduce|unzip|partition|min_by_key|max_by_key|min_by|max_by|rposition|last_mut)$')
+def _(I, ctx, *a): raise Unsupported('iterator adaptor ' + ctx.cur_key)
